@@ -3,7 +3,7 @@ from props.common import Rng, bspec, modes, number, CHUNK, hexspec, TEST_KEY
 from props.hist import PLATFORMS, upd_size
 
 RULE = ("call sequences over the trait methods (Update::update, FixedOutput::finalize_fixed, FixedOutputReset, "
-        "ExtendableOutput(+Reset) with XofReader::read, Reset::reset, KeyInit::new, Digest::new) mirrored op by op "
+        "ExtendableOutput(+Reset) with XofReader::read (first read and sequences of unaligned / whole-block reads on one reader), Reset::reset, KeyInit::new, Digest::new) mirrored op by op "
         "with the inherent methods on a second instance; guts::ChunkState for chunk counters 0, 1, 2^32-1, 2^32, "
         "2^63, 2^64-1, lengths 0..1024 with random splits, both root flags (root only with counter 0: a root "
         "chunk is chunk 0 by definition; the code debug_asserts it); guts::parent_cv on random CV pairs. "
@@ -42,6 +42,15 @@ def gen_cases(seed, tier):
                     ops += ["c:0", "c:1"]
             ops += ["tf:0", "f:1", "c:0", "c:1"]
             lines.append(f"H {m} {plat} " + " ".join(ops))
+        # XofReader::read sequences on ONE reader: unaligned reads followed by whole-block reads, mirrored by inherent fill
+        for _ in range(6 if tier == "thorough" else 2):
+            m = rng.choice(ms)
+            b = bspec(rng, rng.choice([0, 1, 64, 1025, 3000]))
+            ops = [f"u:0:{b}", "tx:0:0", "xo:0"]      # reader 0 through the trait, reader 1 inherent
+            for _ in range(rng.range(3, 8)):
+                n = rng.choice([rng.range(1, 63), 64, 128, 64 * rng.range(1, 20), rng.range(1, 700), 10, 32, 100])
+                ops += [f"trd:0:{n}", f"rf:1:{n}", "rp:0", "rp:1"]
+            lines.append(f"H {m} {plat} " + " ".join(ops))
         key = f"keyed=prng/{rng.below(9999)}/32"
         lines.append(f"H {key} {plat} tk tu:1:paint/0/3000 u:0:paint/0/3000 tf:1 f:0 tx:1:100 x:0:100")
         lines.append(f"H hash {plat} td tu:1:hex/616263 tf:1 oh:hex/616263")
@@ -70,7 +79,7 @@ def gen_cases(seed, tier):
 
 
 def nontrivial(rest, model_line):
-    return any(t in rest for t in ("tfr:", "txr:", "tr:")) or (rest.startswith("gc ") and "," in rest)
+    return any(t in rest for t in ("tfr:", "txr:", "tr:", "trd:")) or (rest.startswith("gc ") and "," in rest)
 
 
 def correspondence(ctx):
